@@ -7,8 +7,9 @@ and runs the body (theater: prompter, spotlights, audition, collector — the fo
 are `Model/Conduct.lean`).  `runConduct` waits for `conduct` or for a termination signal; a signal
 only asks the stopper to stop (which cancels the interruptible commands — cleanups are not) and
 `SIGINT` additionally makes the exit status non-zero; the result of `conduct` is awaited in every
-case.  A *second* signal re-raises itself and kills the process: outside this model (and outside
-the property, which injects single faults).
+case.  A *second* signal re-raises itself and kills the process (since 068ded5 also when that signal
+was ignored when the process was started: it then exits by itself a second later): outside this model —
+the fault plays of `vlib/c07.py` only judge that the process is gone in bounded time.
 
 The environment decides: how each cleanup ends each time, whether the body ends with an error
 other than a cancellation (a failed or interrupted non-tolerated action, a foul under `-S`, an
